@@ -59,6 +59,10 @@ def apply_variant(sources: Dict[str, str], v: dict) -> Optional[Dict[str, str]]:
         from selftest.transforms import rename_module
 
         return {k: rename_module(t) for k, t in sources.items()}
+    if v.get("global") == "hoist":
+        from selftest.transforms import hoist_module
+
+        return {k: hoist_module(t) for k, t in sources.items()}
     if v.get("global") == "keywordize":
         from selftest.transforms import keywordize_module
 
@@ -150,6 +154,8 @@ def run_for(prop: str, seed: int = 0, jobs: int = 16) -> dict:
                      "note": "positional arguments of calls to repository functions (all but the first) written as keywords"})
     variants.append({"property": prop, "id": "%s-rename-all-locals" % prop, "kind": "silent", "rule": None, "edits": [], "global": "rename-locals",
                      "note": "every function-local variable of every function without closures renamed (<name>_rn)"})
+    variants.append({"property": prop, "id": "%s-extract-variables" % prop, "kind": "silent", "rule": None, "edits": [], "global": "hoist",
+                     "note": "'extract variable' refactoring everywhere: non-trivial arguments of statement-level calls are computed into fresh locals first"})
     baseline = violations_of(prop, sources)
     # the self-test presupposes a tree on which the rules are silent (known findings aside); otherwise a rule that
     # raises a false alarm on the unmodified tree would hide behind the baseline
